@@ -200,6 +200,22 @@ SPECULATIVE = [x for x in STATEFUL if x[1] in (
     "SELECT * FROM t PIVOT(SUM(v) FOR k IN ('a', 'b'))", "CREATE TABLE a CLONE b", "SELECT (d2 - d1) DAY TO SECOND FROM t")]
 SIGNATURES = [x for x in STATEFUL if x[1].startswith(("CREATE TEMP FUNCTION", "CREATE FUNCTION", "CREATE MACRO"))]
 
+def stateful_families():
+    """Statements grouped by the piece of per-instance state they touch; a focus group takes whole families so that the
+    same state is exercised at least twice on one reused component."""
+    fam = {
+        "pipe": [x for x in STATEFUL if "|>" in x[1]] + [("bigquery", "FROM t |> WHERE a > 1 |> AGGREGATE COUNT(*) AS n GROUP BY b")],
+        "anon_alias": [x for x in STATEFUL if "UNNEST" in x[1] or "VALUES (1, 2)" in x[1] or "CROSS JOIN (SELECT 2)" in x[1] or "GENERATE_SERIES(1, 3)" == x[1][-21:] or "FLATTEN" in x[1]],
+        "lambda": [x for x in STATEFUL if "->" in x[1]],
+        "jsonpath": [x for x in STATEFUL if "JSON_EXTRACT" in x[1]] + [("bigquery", "SELECT JSON_VALUE(j, '$.a'), JSON_QUERY(j, '$.b.c') FROM t")],
+        "speculative": list(SPECULATIVE),
+        "signature": list(SIGNATURES),
+        "softkw": [(None, q) for q in SOFT_KEYWORDS],
+        "unsupported": [x for x in STATEFUL if x[0] in ("postgres", "tsql", "mysql", "oracle", "clickhouse") and "GENERATE_SERIES(1, 3)" != x[1][-21:]],
+    }
+    return {k: v for k, v in fam.items() if v}
+
+
 FAILING = [
     (None, "SELECT * FROM"),
     (None, "SELECT 'unterminated"),
